@@ -14,6 +14,8 @@
    reply    : ok <nerr> <nsilent> <nio> <bailed> <nfail> <nlost> C.. P..
    request  : scrub1 <limit> <io_before> <now> <time> <bad> <rehash> <just> D <n> { <used> <invalid> <file> <tsdiff> <updhash> <O1|O0|E|I|FI|F> }* L <n> { <P1|P0|E|I|FI|F> }*
    reply    : ok <time> <bad> <rehash> <just> <bail> <nerr> <nsilent> <nio>
+   request  : trace <force_full> <force_parity_update> <io_limit> <now> <bs> <nlev> <stop|-1> <start> <max> A <autosave_at> H.. C.. P.. FS.. Q..
+   reply    : ok { R<len> | S | W<pos> | F | D }*        (the main-thread events of FaultModel.sync_trace, C07)
    (copied from ocaml/C06/driver.ml: extracted types are per extraction)                                               *)
 open C08_ext
 
@@ -185,6 +187,30 @@ let () =
                                  (if ro.ro_bailed then 1 else 0) (int_of_nat r.w_nfail) (List.length r.w_lost));
           print_content b (save_normalise ro.ro_content);
           print_parity b ro.ro_parity;
+          print_endline (Buffer.contents b)
+        | "trace" ->
+          let ff = nint t <> 0 in let fpu = nint t <> 0 in let iol = nint t in let now = nint t in
+          let bs = nint t in let nlev = nint t in let stop = nint t in let start = nint t in let mx = nint t in
+          expect t "A";
+          let asave = nint t in
+          let hashf = parse_hashes t in
+          let c = clear_past (parse_content t) in
+          let p = parse_parity t in
+          let fs = parse_fs t in
+          let faults = parse_faults t in
+          let o = { o_force_full = ff; o_force_parity_update = fpu; o_io_error_limit = nat_of_int iol } in
+          let stripes = List.init (max 0 (mx - start)) (fun i -> nat_of_int (start + i)) in
+          let tr = sync_trace hashf (n_of_int bs) (nat_of_int nlev) o (n_of_int now) fs faults
+                     (fun pos -> asave <> 0 && int_of_nat pos = asave) stripes
+                     (if stop < 0 then None else Some (nat_of_int stop)) c p in
+          let b = Buffer.create 256 in
+          Buffer.add_string b "ok";
+          List.iter (function
+            | MResize len -> Buffer.add_string b (Printf.sprintf " R%d" (int_of_nat len))
+            | MSave _ -> Buffer.add_string b " S"
+            | MSched (pos, _) -> Buffer.add_string b (Printf.sprintf " W%d" (int_of_nat pos))
+            | MFsync -> Buffer.add_string b " F"
+            | MDrain -> Buffer.add_string b " D") tr;
           print_endline (Buffer.contents b)
         | "scrub1" ->
           let limit = nint t in let iob = nint t in let now = nint t in
